@@ -702,7 +702,10 @@ def run_check(pid, tier, seed, replay):
     if spec.get("exhaustive"):
         ev["coverage"]["exhaustive"] = True
     write_evidence(pid, ev)
+    agg = {}
     for sig, text, cnt in known_printed:
+        agg[sig] = (text, max(cnt, agg.get(sig, ("", 0))[1]))
+    for sig, (text, cnt) in sorted(agg.items()):
         print("KNOWN-FINDING: property=%s %s [sig=%s, %d cases]" % (pid, text, sig, cnt))
     if violations:
         # one VIOLATION line per distinct violation
